@@ -61,6 +61,7 @@ func genC08(t *rapid.T) c08Case {
 		c.Cfg.ProbeMult = rapid.IntRange(1, 3).Draw(t, "pm3")
 		if rapid.Bool().Draw(t, "cutAfterDrop") {
 			c.AfterProbe = 1
+			c.FromPrev = c.FromPrev || rapid.Bool().Draw(t, "fromPrev2") // straddle the baseline that was in force before the drop
 		}
 	}
 	c.FromPrev = rapid.IntRange(0, 3).Draw(t, "fromPrev") == 0
@@ -70,6 +71,7 @@ func genC08(t *rapid.T) c08Case {
 		c.Cfg.ProbeMult = rapid.IntRange(1, 3).Draw(t, "pm3")
 		if rapid.Bool().Draw(t, "cutAfterDrop") {
 			c.AfterProbe = 1
+			c.FromPrev = c.FromPrev || rapid.Bool().Draw(t, "fromPrev2") // straddle the baseline that was in force before the drop
 		}
 	}
 	c.Pm = rapid.OneOf(rapid.Just(0), rapid.Just(0), rapid.IntRange(1, 999), rapid.IntRange(1, 150)).Draw(t, "pm")
